@@ -163,13 +163,80 @@ func c09XMSS(r *rt.Rec, c XCfg, orig *xmss.XMSS, label string) bool {
 	return true
 }
 
+// c09Continue: the recovered wallet is put at a saved index and used to the end of the tree; every signature must
+// be the one the original object (which signed its way there) produces. Small trees only (all 2^h signatures).
+func c09Continue(r *rt.Rec, c XCfg, orig *xmss.XMSS, label string, rng *rt.Rand) bool {
+	if c.H > 8 {
+		return true
+	}
+	n := uint32(1) << uint(c.H)
+	ext, mnem := orig.GetExtendedSeed(), orig.GetMnemonic()
+	first := orig.GetIndex()
+	origSigs := map[uint32][]byte{}
+	for i := first; i < n; i++ {
+		sg, err := orig.Sign(msgFor(c, i, "c09"))
+		if err != nil {
+			sg = []byte("error: " + err.Error())
+		}
+		origSigs[i] = sg
+	}
+	for ri, name := range []string{"extended-seed", "mnemonic"} {
+		// saved indices: one in each quarter of what is left, seeded
+		for q := uint32(0); q < 4; q++ {
+			span := (n - first) / 4
+			if span == 0 {
+				span = 1
+			}
+			t := first + q*span + uint32(rng.Intn(int(span)))
+			if t >= n {
+				continue
+			}
+			r.Eval(1)
+			cs := c09Case{"c09x", c, rt.Hex(ext[3:]), fmt.Sprintf("%s/%s/continue-from-%d", label, name, t)}
+			bad := ""
+			out := rt.Call(func() {
+				var k *xmss.XMSS
+				if ri == 0 {
+					k = xmss.NewXMSSFromExtendedSeed(ext)
+				} else {
+					k = xmss.NewXMSSFromExtendedSeed(misc.MnemonicToExtendedSeedBin(mnem))
+				}
+				if t > 0 {
+					k.SetIndex(t)
+				}
+				for i := t; i < n && bad == ""; i++ {
+					sg, err := k.Sign(msgFor(c, i, "c09"))
+					if err != nil {
+						sg = []byte("error: " + err.Error())
+					}
+					if !bytes.Equal(sg, origSigs[i]) {
+						bad = fmt.Sprintf("signature at index %d (%s)", i, sigDiff(origSigs[i], sg))
+					}
+				}
+			})
+			if out.Kind != rt.Value {
+				r.Violate("C09/xmss-continue/"+name, fmt.Sprintf("wallet recovered through the %s and put at saved index %d failed: %s (%s)", name, t, out, c), cs, "", out.String())
+				return false
+			}
+			if bad != "" {
+				r.Violate("C09/xmss-continue/"+name, fmt.Sprintf("wallet recovered through the %s and put at saved index %d does not continue like the original: %s (%s, seam=%v)", name, t, bad, c, c.Seam), cs, "", "")
+				return false
+			}
+			r.Count("xmss_recovered_lives_equal", 1)
+			r.Distinct("xmss-continue", c.H, c.HF, c.Seed, c.Seam, name, t)
+		}
+	}
+	return true
+}
+
 func c09Run(j *rt.Job, seed uint64, r *rt.Rec) {
 	rng := rt.NewRand(seed, j.ID)
 	switch j.Kind {
 	case "xmss":
 		c := cfgFromJob(j)
 		c.seam(func() {
-			if c09XMSS(r, c, c.newLib(), "from-seed") {
+			k := c.newLib()
+			if c09XMSS(r, c, k, "from-seed") && c09Continue(r, c, k, "from-seed", rng) {
 				r.Sample(map[string]interface{}{"cfg": c.String(), "seam": c.Seam, "routes": []string{"extended-seed", "mnemonic", "seed"}, "signatures_compared": 3})
 			}
 		})
@@ -182,7 +249,7 @@ func c09Run(j *rt.Job, seed uint64, r *rt.Rec) {
 		if k2.GetSeed() == s {
 			r.Observe("info", "two fresh keys had the same seed (recorded, not judged)")
 		}
-		if c09XMSS(r, c, k, "fresh-randomness") {
+		if c09XMSS(r, c, k, "fresh-randomness") && c09Continue(r, c, k, "fresh-randomness", rng) {
 			r.Count("fresh_xmss_keys", 1)
 			r.Sample(map[string]interface{}{"cfg": c.String(), "fresh": true})
 		}
@@ -305,7 +372,16 @@ func c09Replay(cs map[string]interface{}) (bool, string) {
 		if c.Seed != "" {
 			cfg.Seed = c.Seed
 		}
-		cfg.seam(func() { c09XMSS(rec, cfg, cfg.newLib(), "replay") })
+		cfg.seam(func() {
+			k := cfg.newLib()
+			if c09XMSS(rec, cfg, k, "replay") {
+				for t := uint64(1); t <= 4; t++ { // the saved indices are seeded: several draws
+					c09Continue(rec, cfg, k, "replay", rt.NewRand(t, "replay"))
+					k = cfg.newLib()
+					k.Sign(msgFor(cfg, 0, "c09"))
+				}
+			}
+		})
 	case "c09d":
 		var s [48]byte
 		copy(s[:], rt.UnHex(c.Seed))
